@@ -236,3 +236,4 @@ def _tostring_call_hook(f, args, kw):
 
 
 rt.CALL_HOOKS.append(_tostring_call_hook)
+rt.NATIVE_FUNCS.add(make_treebuilder)
